@@ -5,6 +5,7 @@ import Driver.C02
 import Driver.C11
 import Driver.C17
 import Driver.C10
+import Driver.C16
 open Driver
 
 /-- dispatch one request line; returns the output lines -/
@@ -22,6 +23,7 @@ def dispatch (line : String) : IO (List String) := do
   | "c17" :: args => cmdC17 args
   | "c10" :: args => cmdC10 args
   | "c10sel" :: args => cmdC10Sel args
+  | "c16" :: args => cmdC16 args
   | _ => return ["error unknown-command"]
 
 partial def loop (hin : IO.FS.Stream) (hout : IO.FS.Stream) : IO Unit := do
